@@ -296,6 +296,36 @@ def audit_sources():
     return bad
 
 
+def run_coqchk(pid):
+    """Thorough tier: re-check the compiled property file and everything it depends on with Coq's independent checker and read
+    the axioms it reports.  Allowed: none, or the standard library's own declarations about the primitive 63-bit integers and
+    binary64 floats (Coq.Numbers.Cyclic.Int63.*, Coq.Floats.*), which coqchk lists for every library that loads them."""
+    t0 = time.time()
+    try:
+        r = subprocess.run(["timeout", "1500", "coqchk", "-silent", "-Q", COQ, "DS", "-o", "DS.Properties.%s" % pid],
+                           capture_output=True, text=True, cwd=COQ)
+    except Exception as e:  # noqa
+        return {"ran": False, "ok": False, "error": str(e)[:200]}
+    out = r.stdout + r.stderr
+    summary = out[out.find("CONTEXT SUMMARY"):] if "CONTEXT SUMMARY" in out else ""
+
+    def section(title):
+        m = re.search(r"\* %s:(.*?)(?:\n\s*\n\* |\Z)" % re.escape(title), summary, re.S)
+        items = [x.strip() for x in (m.group(1) if m else "").split("\n") if x.strip()]
+        return [] if items == ["<none>"] else items
+    axioms = section("Axioms")
+    foreign = [a for a in axioms if not a.startswith(("Coq.Numbers.Cyclic.Int63.", "Coq.Floats."))]
+    tit = section("Constants/Inductives relying on type-in-type")
+    unsafe = section("Constants/Inductives relying on unsafe (co)fixpoints")
+    pos = section("Inductives whose positivity is assumed")
+    ok = r.returncode == 0 and bool(summary) and not foreign and not tit and not unsafe and not pos
+    return {"ran": True, "ok": ok, "returncode": r.returncode, "seconds": round(time.time() - t0, 1),
+            "axioms_reported": len(axioms), "axioms_outside_stdlib_primitives": foreign[:20],
+            "stdlib_primitive_axioms": sorted(set(a.rsplit(".", 1)[0] for a in axioms))[:10],
+            "type_in_type": tit[:5], "unsafe_fixpoints": unsafe[:5], "assumed_positivity": pos[:5],
+            "cmd": "coqchk -silent -Q coq DS -o DS.Properties.%s" % pid, "log_tail": "" if ok else out[-1500:]}
+
+
 def check_property_file(pid):
     """Re-compile Properties/<pid>.v from scratch; return (ok, theorems, assumption_report, log)."""
     path = os.path.join(COQ, "Properties", pid + ".v")
@@ -519,6 +549,15 @@ def main_check(pid, tier, seed):
         cov.update({"obligations": obligations, "discharged": discharged,
                     "checker_cmd": "make -C coq (full .vo build) && coqc -Q coq DS coq/Properties/%s.v" % pid,
                     "theorems": report, "audit_findings": audit})
+        chk = None
+        if tier == "thorough" and ok_make and ok_prop:
+            chk = run_coqchk(pid)
+            cov["coqchk"] = chk
+            cov["obligations"] += 1
+            cov["discharged"] += 1 if chk["ok"] else 0
+            if not chk["ok"]:
+                audit = audit + ["coqchk: " + (chk.get("error") or "; ".join(chk["axioms_outside_stdlib_primitives"][:3]) or chk.get("log_tail", "")[-300:])]
+                cov["audit_findings"] = audit
         proofs_ok = ok_make and ok_prop and not audit
         if not ok_make:
             log(make_log)
@@ -641,7 +680,8 @@ def main_check(pid, tier, seed):
             cov.update(prop.extra_evidence())
         ev["assumptions"] = getattr(prop, "ASSUMPTIONS", [])
         # degenerate generator = failing self-test of the check
-        if n_eval and nontrivial * 2 < len(distinct) and not getattr(prop, "ALLOW_TRIVIAL", False):
+        cov["generator_mostly_trivial"] = bool(n_eval and nontrivial * 2 < len(distinct))
+        if cov["generator_mostly_trivial"] and not getattr(prop, "ALLOW_TRIVIAL", False):
             log("generator degenerate: %d nontrivial of %d distinct" % (nontrivial, len(distinct)))
     except StopCheck:
         pass
